@@ -516,6 +516,40 @@ def strategy_table(ctx):
             for v in e.values:
                 out |= possible(v, seen)
             return out
+        if isinstance(e, ast.Call) and isinstance(e.func, ast.Name):
+            # a small helper of the same module that maps a user strategy to the strategy of a field:
+            # union over its return expressions, parameters bound to the possible values of the arguments
+            for t in cg.resolve(e.func, fn):
+                if t[0] == 'func' and t[1].startswith(mf.MNB + ':') and t[1] in repo.functions:
+                    hf = repo.functions[t[1]]
+                    hp = [a.arg for a in hf.args.args]
+                    bind = {}
+                    for i, a in enumerate(e.args):
+                        if i < len(hp):
+                            bind[hp[i]] = possible(a, seen)
+                    for k in e.keywords:
+                        if k.arg in hp:
+                            bind[k.arg] = possible(k.value, seen)
+                    out = set()
+                    for r in walk_no_nested(hf):
+                        if isinstance(r, ast.Return) and r.value is not None:
+                            v = r.value
+                            if isinstance(v, ast.Constant):
+                                out.add(v.value)
+                            elif isinstance(v, ast.Name) and v.id in bind:
+                                out |= bind[v.id]
+                            elif isinstance(v, ast.Subscript) and isinstance(v.value, ast.Name):
+                                tbl = repo.module_assign(mf.MNB, v.value.id)
+                                keys = bind.get(v.slice.id) if isinstance(v.slice, ast.Name) else ({const_val(v.slice)} if isinstance(v.slice, ast.Constant) else None)
+                                if isinstance(tbl, ast.Dict) and keys is not None and UNKNOWN not in keys:
+                                    for kk, vv in zip(tbl.keys, tbl.values):
+                                        if const_val(kk) in keys and isinstance(vv, ast.Constant):
+                                            out.add(vv.value)
+                                else:
+                                    out.add(UNKNOWN)
+                            else:
+                                out.add(UNKNOWN)
+                    return out or {UNKNOWN}
         return {UNKNOWN}
     table = {}
     transients = []
